@@ -231,6 +231,41 @@ def h_route_ila(ctx):
               out[0].nodes_list == want, info=dict(info, got=out[0].nodes_list, want=want))
 
 
+def h_dangling_rows(ctx):
+    """Links / Eqpt rows naming a site that is not in the Nodes sheet, as first or as second city: the workbook is refused with
+    a topology error (never another exception, never accepted)"""
+    from harness import c20_ch
+    from gnpy.core.exceptions import NetworkTopologyError
+    from gnpy.tools import convert as cv
+    sheet = ctx.choice('sheet with the dangling row', ['Links', 'Eqpt'])
+    which = ctx.choice('unknown site in column', ['first', 'second', 'none'])
+    nodes = [{'city': c, 'node_type': 'ROADM'} for c in 'ABC']
+    links = [{'from_city': 'A', 'to_city': 'B', 'east_distance': 50}, {'from_city': 'B', 'to_city': 'C', 'east_distance': 60}]
+    eqpt = [{'from_city': 'A', 'to_city': 'B', 'east_amp_type': 'std_medium_gain', 'east_amp_gain': 20}]
+    bad = {'first': ('ghost', 'A'), 'second': ('A', 'ghost')}.get(which)
+    if bad:
+        if sheet == 'Links':
+            links.append({'from_city': bad[0], 'to_city': bad[1], 'east_distance': 40})
+        else:
+            eqpt.append({'from_city': bad[0], 'to_city': bad[1], 'east_amp_type': 'std_low_gain', 'east_amp_gain': 15})
+    sh = c20_ch._Sheets({'Nodes': nodes, 'Links': links, 'Eqpt': eqpt})
+    sh.install()
+    try:
+        cv.xls_to_json_data('in-memory.xlsx')
+        err = None
+    except NetworkTopologyError as e:
+        err = 'topology'
+    except Exception as e:      # noqa
+        err = f'{type(e).__name__}: {e}'
+    finally:
+        sh.restore()
+    info = dict(sheet=sheet, unknown_in=which, outcome=err)
+    if which == 'none':
+        ctx.prove('consistent workbook converts', err is None, info=info)
+    else:
+        ctx.prove('a row naming an unknown site is refused with a topology error', err == 'topology', info=info)
+
+
 def setup():
     import logging
     logging.disable(logging.CRITICAL)
@@ -244,6 +279,7 @@ def jobs(tier):
               for i, t in enumerate(('ROADM', 'ILA', 'FUSED'))]
     extra += [dict(name='H20:link_attributes_per_direction', kind='symx', fn='h_link_attributes', witness_every=10, budget_s=200, cost=30),
               dict(name='H20:eqpt_attributes_per_direction', kind='symx', fn='h_eqpt_attributes', witness_every=20, budget_s=200, cost=40)]
+    extra += [dict(name='H20:dangling_rows', kind='symx', fn='h_dangling_rows', witness_every=2, budget_s=100, cost=10)]
     extra += [dict(name='H20:route_through_inline_sites', kind='symx', fn='h_route_ila', witness_every=4, budget_s=200, cost=30)]
     return extra + [dict(name=f'CH20:{f}', kind='crosshair', fn='run_crosshair', target=f, ch_module='harness.c20_ch', per_condition_timeout=tmo,
                  per_path_timeout=10, budget_s=tmo * 3 + 120, cost=tmo) for f in FUNCS]
